@@ -57,7 +57,9 @@ def configs(tier, rng):
   for bits, alpha, ax in itertools.product([4, 6], ["auto", "auto_po2"], [0, 1]):
     cfgs.append(dict(fam="qlin", bits=bits, integer=0, alpha=alpha, kn=1, sym=1, scale_axis=ax))
   if tier == "quick":
-    must = [i for i, c in enumerate(cfgs) if c.get("emin") is not None or c.get("emax") is not None or (c["fam"] == "qlin" and c.get("scale_axis") is not None)]
+    # every configuration with a non-default option (exponent bounds, blocks, scale axis, frozen scale) is always kept
+    must = [i for i, c in enumerate(cfgs) if c.get("emin") is not None or c.get("emax") is not None or c.get("eps") or c.get("pts") is not None
+            or c.get("scale_axis") is not None]
     rest = [i for i in range(len(cfgs)) if i not in must]
     idx = list(rng.choice(rest, size=22, replace=False)) + must
     cfgs = [cfgs[i] for i in sorted(idx)]
@@ -97,7 +99,17 @@ def main():
   texts, items = [], []
   n_eq = 0
   for c in configs(rep.tier, rng):
-    for kind, x in tensors(rng, rep.tier):
+    tl = tensors(rng, rep.tier)
+    if c.get("eps"):
+      # directed: blocks of very different magnitude along the scale axis (a wrongly laid out scale cannot go unnoticed)
+      ax, e = c["scale_axis"], c["eps"]
+      mags = np.repeat(np.array([1.0, 8.0, 0.05, 64.0]), e)
+      shp = [4, 4]
+      shp[ax] = mags.size
+      g = rng.normal(0, 1, size=shp)
+      g = g * (mags.reshape(-1, 1) if ax == 0 else mags.reshape(1, -1))
+      tl = [("block-magnitudes", np.asarray(g, dtype=np.float32))] + tl
+    for kind, x in tl:
       if c.get("scale_axis") is not None and (x.ndim < 2 or x.ndim <= c["scale_axis"]):
         continue
       if c.get("eps") and (x.ndim < 2 or x.shape[c["scale_axis"]] % c["eps"]):
